@@ -136,13 +136,20 @@ Qed.
 Lemma marshal_union ty un :
   marshal (GS ty None un) = match un with [] => JStr ty | _ => JArr (map marshal un) end.
 Proof.
-  destruct un as [|u us]; [reflexivity|].
-  cbn [marshal]. f_equal. generalize (u :: us). intros l.
-  induction l as [|x r IH]; cbn [map]; [reflexivity|rewrite IH; reflexivity].
+  destruct un as [|u us]; reflexivity.
 Qed.
 
 Definition marshal_fields (fields : list (ident * gschema)) : list json :=
   map (fun p => marshal_field (fst p) (marshal (snd p))) fields.
+
+Lemma marshal_fields_fix fields :
+  (fix go (l : list (ident * gschema)) {struct l} : list json :=
+     match l with [] => [] | (n, t) :: r => marshal_field n (marshal t) :: go r end) fields
+  = marshal_fields fields.
+Proof.
+  unfold marshal_fields. induction fields as [|[n t] r IH]; [reflexivity|].
+  cbn [map fst snd]. rewrite <- IH. reflexivity.
+Qed.
 
 Lemma marshal_obj_eq ty lt name ns fields items values size syms :
   marshal_obj ty (GO lt name ns fields items values size syms) =
@@ -153,17 +160,21 @@ Lemma marshal_obj_eq ty lt name ns fields items values size syms :
     (b "values", if is ty "map" then Some (marshal values) else None);
     (b "size", if is ty "fixed" then Some (JNum (dec_of_Z size) (Some size)) else None) ].
 Proof.
-  cbn [marshal_obj]. do 4 f_equal. f_equal; [|reflexivity].
-  f_equal. destruct (is ty "record"); [|reflexivity]. do 2 f_equal.
-  unfold marshal_fields. induction fields as [|[n t] r IH]; cbn [map fst snd]; [reflexivity|rewrite IH; reflexivity].
+  cbn [marshal_obj]. rewrite marshal_fields_fix. reflexivity.
 Qed.
 
 Lemma gs_wf_union ty un :
   gs_wf (GS ty None un) = match un with [] => true | _ => is ty "union" && forallb gs_wf un end.
 Proof.
-  destruct un as [|u us]; [reflexivity|].
-  cbn [gs_wf]. f_equal. generalize (u :: us). intros l.
-  induction l as [|x r IH]; cbn [forallb]; [reflexivity|rewrite IH; reflexivity].
+  destruct un as [|u us]; reflexivity.
+Qed.
+
+Lemma wf_fields_fix fields :
+  (fix go (l : list (ident * gschema)) {struct l} : bool :=
+     match l with [] => true | (_, t) :: r => gs_wf t && go r end) fields
+  = forallb (fun p => gs_wf (snd p)) fields.
+Proof.
+  induction fields as [|[n t] r IH]; [reflexivity|]. cbn [forallb snd]. rewrite <- IH. reflexivity.
 Qed.
 
 Lemma go_wf_eq ty lt name ns fields items values size syms :
@@ -173,16 +184,21 @@ Lemma go_wf_eq ty lt name ns fields items values size syms :
   (if is ty "map" then gs_wf values else true) &&
   (if is ty "fixed" then int_ok size else true).
 Proof.
-  cbn [go_wf]. do 3 f_equal. destruct (is ty "record"); [|reflexivity].
-  induction fields as [|[n t] r IH]; cbn [forallb snd]; [reflexivity|rewrite IH; reflexivity].
+  cbn [go_wf]. rewrite wf_fields_fix. reflexivity.
 Qed.
 
 Lemma gs_normal_union ty un :
   gs_normal (GS ty None un) = match un with [] => true | _ => is ty "union" && forallb gs_normal un end.
 Proof.
-  destruct un as [|u us]; [reflexivity|].
-  cbn [gs_normal]. f_equal. generalize (u :: us). intros l.
-  induction l as [|x r IH]; cbn [forallb]; [reflexivity|rewrite IH; reflexivity].
+  destruct un as [|u us]; reflexivity.
+Qed.
+
+Lemma normal_fields_fix fields :
+  (fix go (l : list (ident * gschema)) {struct l} : bool :=
+     match l with [] => true | (_, t) :: r => gs_normal t && go r end) fields
+  = forallb (fun p => gs_normal (snd p)) fields.
+Proof.
+  induction fields as [|[n t] r IH]; [reflexivity|]. cbn [forallb snd]. rewrite <- IH. reflexivity.
 Qed.
 
 Lemma go_normal_eq ty lt name ns fields items values size syms :
@@ -193,8 +209,7 @@ Lemma go_normal_eq ty lt name ns fields items values size syms :
   (if is ty "fixed" then int_ok size else size =? 0) &&
   (if is ty "enum" then true else is_nil syms).
 Proof.
-  cbn [go_normal]. do 4 f_equal. destruct (is ty "record"); [|reflexivity].
-  induction fields as [|[n t] r IH]; cbn [forallb snd]; [reflexivity|rewrite IH; reflexivity].
+  cbn [go_normal]. rewrite normal_fields_fix. reflexivity.
 Qed.
 
 Definition meaning_fields (fields : list (ident * gschema)) : list (ident * gschema) :=
@@ -202,7 +217,16 @@ Definition meaning_fields (fields : list (ident * gschema)) : list (ident * gsch
 
 Lemma gs_meaning_union ty un : gs_meaning (GS ty None un) = GS ty None (map gs_meaning un).
 Proof.
-  cbn [gs_meaning]. f_equal. induction un as [|x r IH]; cbn [map]; [reflexivity|rewrite IH; reflexivity].
+  reflexivity.
+Qed.
+
+Lemma meaning_fields_fix fields :
+  (fix go (l : list (ident * gschema)) {struct l} : list (ident * gschema) :=
+     match l with [] => [] | (n, t) :: r => (n, gs_meaning t) :: go r end) fields
+  = meaning_fields fields.
+Proof.
+  unfold meaning_fields. induction fields as [|[n t] r IH]; [reflexivity|].
+  cbn [map fst snd]. rewrite <- IH. reflexivity.
 Qed.
 
 Lemma go_meaning_eq ty lt name ns fields items values size syms :
@@ -213,8 +237,7 @@ Lemma go_meaning_eq ty lt name ns fields items values size syms :
      (if is ty "fixed" then size else 0)
      (if is ty "enum" then syms else []).
 Proof.
-  cbn [go_meaning]. f_equal. destruct (is ty "record"); [|reflexivity].
-  unfold meaning_fields. induction fields as [|[n t] r IH]; cbn [map fst snd]; [reflexivity|rewrite IH; reflexivity].
+  cbn [go_meaning]. rewrite meaning_fields_fix. reflexivity.
 Qed.
 
 Lemma unmarshal_arr l :
@@ -223,3 +246,1060 @@ Proof. reflexivity. Qed.
 
 Lemma unmarshal_obj ms : unmarshal (JObj ms) = dec_object unmarshal ms.
 Proof. reflexivity. Qed.
+
+(* ---- generic facts on dec_list, lookups, dec_struct ------------------------------- *)
+
+Lemma dec_list_ext {A} (f g : json -> option A) l :
+  Forall (fun x => f x = g x) l -> dec_list f l = dec_list g l.
+Proof.
+  induction 1 as [|x r Hx _ IH]; [reflexivity|]. cbn [dec_list]. rewrite Hx. fold (dec_list f r) (dec_list g r).
+  rewrite IH. reflexivity.
+Qed.
+
+Lemma dec_list_Forall2 {A} (f : json -> option A) l out :
+  dec_list f l = Some out <-> Forall2 (fun x a => f x = Some a) l out.
+Proof.
+  revert out. induction l as [|x r IH]; intros out; cbn [dec_list].
+  - split; intros H; [inversion H; constructor|inversion H; reflexivity].
+  - fold (dec_list f r). split.
+    + intros H. destruct (f x) as [a|] eqn:Ea; [|discriminate].
+      destruct (dec_list f r) as [l'|] eqn:El; [|discriminate]. inversion H; subst.
+      constructor; [exact Ea|apply IH; reflexivity].
+    + intros H. inversion H as [|x0 a l0 l' Ha Hr]; subst. rewrite Ha.
+      apply IH in Hr. rewrite Hr. reflexivity.
+Qed.
+
+Lemma dec_list_rel {A} (f g : json -> option A) l l' :
+  Forall2 (fun x y => f x = g y) l l' -> dec_list f l = dec_list g l'.
+Proof.
+  induction 1 as [|x y r r' Hxy _ IH]; [reflexivity|]. cbn [dec_list].
+  fold (dec_list f r) (dec_list g r'). rewrite Hxy, IH. reflexivity.
+Qed.
+
+Lemma dec_list_none {A} (f : json -> option A) l x :
+  In x l -> f x = None -> dec_list f l = None.
+Proof.
+  induction l as [|y r IH]; intros Hin Hx; [contradiction|]. cbn [dec_list]. fold (dec_list f r).
+  destruct Hin as [->|Hin]; [rewrite Hx; reflexivity|].
+  rewrite (IH Hin Hx). destruct (f y); reflexivity.
+Qed.
+
+Lemma dec_list_map {A} (f : json -> option A) {B} (g : B -> json) (h : B -> A) l :
+  Forall (fun x => f (g x) = Some (h x)) l -> dec_list f (map g l) = Some (map h l).
+Proof.
+  induction 1 as [|x r Hx _ IH]; [reflexivity|]. cbn [map dec_list]. fold (dec_list f (map g r)).
+  rewrite Hx, IH. reflexivity.
+Qed.
+
+Lemma jlookup_In k ms v : jlookup k ms = Some v -> In (k, v) ms.
+Proof.
+  induction ms as [|[k' v'] r IH]; cbn [jlookup]; [discriminate|].
+  destruct (bytes_eqb k k') eqn:E.
+  - intros H. inversion H; subst. apply bytes_eqb_eq in E. subst. left. reflexivity.
+  - intros H. right. apply IH. exact H.
+Qed.
+
+Lemma jlookup_notin k ms : ~ In k (map fst ms) -> jlookup k ms = None.
+Proof.
+  induction ms as [|[k' v'] r IH]; cbn [jlookup map fst]; [reflexivity|]. intros H.
+  destruct (bytes_eqb k k') eqn:E.
+  - apply bytes_eqb_eq in E. subst. exfalso. apply H. left. reflexivity.
+  - apply IH. intros Hin. apply H. right. exact Hin.
+Qed.
+
+Lemma jlookup_In_nodup k v ms : NoDup (map fst ms) -> In (k, v) ms -> jlookup k ms = Some v.
+Proof.
+  induction ms as [|[k' v'] r IH]; cbn [jlookup map fst]; intros Hnd Hin; [contradiction|].
+  inversion Hnd as [|? ? Hnotin Hnd']; subst. destruct Hin as [Heq|Hin].
+  - inversion Heq; subst. rewrite bytes_eqb_refl. reflexivity.
+  - destruct (bytes_eqb k k') eqn:E.
+    + apply bytes_eqb_eq in E. subst. exfalso. apply Hnotin. apply in_map_iff. exists (k', v). split; [reflexivity|exact Hin].
+    + apply IH; assumption.
+Qed.
+
+Lemma jlookup_perm k ms ms' :
+  Permutation ms ms' -> NoDup (map fst ms) -> jlookup k ms = jlookup k ms'.
+Proof.
+  intros Hp Hnd.
+  assert (Hnd' : NoDup (map fst ms')) by (eapply Permutation_NoDup; [apply Permutation_map; exact Hp|exact Hnd]).
+  destruct (jlookup k ms) as [v|] eqn:E.
+  - symmetry. apply jlookup_In_nodup; [exact Hnd'|]. eapply Permutation_in; [exact Hp|]. apply jlookup_In. exact E.
+  - destruct (jlookup k ms') as [v|] eqn:E'; [|reflexivity].
+    apply jlookup_In in E'. apply Permutation_sym in Hp. pose proof (Permutation_in _ Hp E') as Hin.
+    rewrite (jlookup_In_nodup _ _ _ Hnd Hin) in E. discriminate.
+Qed.
+
+(* a member is acceptable: a known one decodes, an unknown one has no duplicate names inside *)
+Definition member_ok (tbl : bytes -> option kind) (dk : kind -> json -> option aval) (kv : bytes * json) : bool :=
+  match tbl (fst kv) with
+  | None => json_nodup (snd kv)
+  | Some kd => match dk kd (snd kv) with Some _ => true | None => false end
+  end.
+
+(* the value stored for the field named k *)
+Definition attr_val (tbl : bytes -> option kind) (dk : kind -> json -> option aval)
+  (ms : list (bytes * json)) (k : bytes) : option aval :=
+  match tbl k with
+  | None => None
+  | Some kd => match jlookup k ms with Some v => dk kd v | None => None end
+  end.
+
+Lemma dec_struct_cons tbl dk k v r :
+  dec_struct tbl dk ((k, v) :: r) =
+  match tbl k with
+  | None => if json_nodup v then dec_struct tbl dk r else None
+  | Some kd => match dk kd v, dec_struct tbl dk r with
+               | Some a, Some l => Some ((k, a) :: l)
+               | _, _ => None
+               end
+  end.
+Proof. reflexivity. Qed.
+
+Lemma dec_struct_ok tbl dk ms :
+  forallb (member_ok tbl dk) ms = match dec_struct tbl dk ms with Some _ => true | None => false end.
+Proof.
+  induction ms as [|[k v] r IH]; [reflexivity|].
+  rewrite dec_struct_cons. cbn [forallb]. unfold member_ok at 1. cbn [fst snd]. rewrite IH.
+  destruct (tbl k) as [kd|].
+  - destruct (dk kd v); [|reflexivity]. destruct (dec_struct tbl dk r); reflexivity.
+  - destruct (json_nodup v); reflexivity.
+Qed.
+
+Lemma dec_struct_alookup tbl dk ms l :
+  dec_struct tbl dk ms = Some l -> forall k, alookup k l = attr_val tbl dk ms k.
+Proof.
+  revert l. induction ms as [|[k0 v0] r IH]; intros l H k.
+  - inversion H; subst. unfold attr_val. cbn [alookup jlookup]. destruct (tbl k); reflexivity.
+  - rewrite dec_struct_cons in H. unfold attr_val. cbn [jlookup].
+    destruct (tbl k0) as [kd0|] eqn:T0.
+    + destruct (dk kd0 v0) as [a0|] eqn:D0; [|discriminate].
+      destruct (dec_struct tbl dk r) as [l'|] eqn:R; [|discriminate]. inversion H; subst.
+      cbn [alookup]. destruct (bytes_eqb k k0) eqn:E.
+      * apply bytes_eqb_eq in E. subst. rewrite T0. symmetry. exact D0.
+      * rewrite (IH l' eq_refl k). reflexivity.
+    + destruct (json_nodup v0); [|discriminate].
+      rewrite (IH l H k). unfold attr_val. destruct (bytes_eqb k k0) eqn:E; [|reflexivity].
+      apply bytes_eqb_eq in E. subst. rewrite T0. reflexivity.
+Qed.
+
+(* dec_struct depends on the member values only through dk and json_nodup *)
+Lemma dec_struct_rel tbl dk dk' ms ms' :
+  Forall2 (fun a c => fst a = fst c /\ (forall kd, dk kd (snd a) = dk' kd (snd c)) /\
+                      json_nodup (snd a) = json_nodup (snd c)) ms ms' ->
+  dec_struct tbl dk ms = dec_struct tbl dk' ms'.
+Proof.
+  induction 1 as [|[k v] [k' v'] r r' [Hk [Hd Hn]] _ IH]; [reflexivity|].
+  cbn [fst snd] in *. subst k'. rewrite !dec_struct_cons, IH, Hn.
+  destruct (tbl k) as [kd|]; [rewrite Hd|]; reflexivity.
+Qed.
+
+Lemma forallb_perm {A} (f : A -> bool) l l' : Permutation l l' -> forallb f l = forallb f l'.
+Proof.
+  induction 1 as [|x l l' _ IH|x y l|l l' l'' _ IH1 _ IH2]; cbn [forallb].
+  - reflexivity.
+  - rewrite IH. reflexivity.
+  - rewrite !andb_assoc, (andb_comm (f y)). reflexivity.
+  - congruence.
+Qed.
+
+(* ---- the decoded object as a function of the member looked up by name ---------------- *)
+
+Definition gstr (look : bytes -> option aval) (k : string) : bytes :=
+  match look (b k) with Some (AStr s) => s | _ => [] end.
+Definition gsch (look : bytes -> option aval) (k : string) : gschema :=
+  match look (b k) with Some (ASch s) => s | _ => gs_zero end.
+Definition gfields (look : bytes -> option aval) (k : string) : list (ident * gschema) :=
+  match look (b k) with Some (AFields s) => s | _ => [] end.
+Definition gint (look : bytes -> option aval) (k : string) : Z :=
+  match look (b k) with Some (AInt z) => z | _ => 0 end.
+Definition gsyms (look : bytes -> option aval) (k : string) : list ident :=
+  match look (b k) with Some (ASyms s) => s | _ => [] end.
+
+Definition build_obj (look : bytes -> option aval) : gschema :=
+  GS (gstr look "type")
+     (Some (GO (gstr look "logicalType") (gstr look "name") (gstr look "namespace")
+               (gfields look "fields") (gsch look "items") (gsch look "values")
+               (gint look "size") (gsyms look "symbols")))
+     [].
+
+Lemma build_obj_ext look look' : (forall k, look k = look' k) -> build_obj look = build_obj look'.
+Proof.
+  intros H. unfold build_obj, gstr, gsch, gfields, gint, gsyms. rewrite !H. reflexivity.
+Qed.
+
+Lemma dec_object_view un ms :
+  dec_object un ms =
+  if nodupb (map fst ms) && forallb (member_ok obj_attr (dk_obj un)) ms
+  then Some (build_obj (attr_val obj_attr (dk_obj un) ms)) else None.
+Proof.
+  unfold dec_object. destruct (nodupb (map fst ms)); [|reflexivity]. cbn [andb].
+  rewrite dec_struct_ok. destruct (dec_struct obj_attr (dk_obj un) ms) as [l|] eqn:E; [|reflexivity].
+  f_equal. change (build_obj (fun k => alookup k l) = build_obj (attr_val obj_attr (dk_obj un) ms)).
+  apply build_obj_ext. intros k. apply dec_struct_alookup. exact E.
+Qed.
+
+Lemma dec_field_view un ms :
+  dec_field un (JObj ms) =
+  if nodupb (map fst ms) && forallb (member_ok field_attr (dk_field un)) ms
+  then Some (gstr (attr_val field_attr (dk_field un) ms) "name",
+             gsch (attr_val field_attr (dk_field un) ms) "type") else None.
+Proof.
+  cbn [dec_field]. destruct (nodupb (map fst ms)); [|reflexivity]. cbn [andb].
+  rewrite dec_struct_ok. destruct (dec_struct field_attr (dk_field un) ms) as [l|] eqn:E; [|reflexivity].
+  unfold get_str, get_sch, gstr, gsch. rewrite !(dec_struct_alookup _ _ _ _ E). reflexivity.
+Qed.
+
+(* ---- (2) independence of member order ---------------------------------------------------- *)
+
+(* everything any decoder of the model can observe of a value *)
+Definition all_dec (j : json) :=
+  (unmarshal j, json_nodup j, dec_field unmarshal j, dec_string j, dec_int j,
+   dec_slice (dec_field unmarshal) j, dec_slice dec_string j).
+
+Lemma all_dec_dk_obj j j' : all_dec j = all_dec j' -> forall kd, dk_obj unmarshal kd j = dk_obj unmarshal kd j'.
+Proof.
+  unfold all_dec. intros H kd. inversion H as [[H1 H2 H3 H4 H5 H6 H7]].
+  destruct kd; cbn [dk_obj]; congruence.
+Qed.
+
+Lemma all_dec_dk_field j j' : all_dec j = all_dec j' -> forall kd, dk_field unmarshal kd j = dk_field unmarshal kd j'.
+Proof.
+  unfold all_dec. intros H kd. inversion H as [[H1 H2 H3 H4 H5 H6 H7]].
+  destruct kd; cbn [dk_field]; congruence.
+Qed.
+
+Lemma all_dec_nodup j j' : all_dec j = all_dec j' -> json_nodup j = json_nodup j'.
+Proof. unfold all_dec. intros H. inversion H. reflexivity. Qed.
+
+Lemma Forall_Forall2_combine {A B} (P : A -> Prop) (R S : A -> B -> Prop) l l' :
+  Forall P l -> Forall2 R l l' -> (forall x y, P x -> R x y -> S x y) -> Forall2 S l l'.
+Proof.
+  intros HP HR Himp. induction HR as [|x y r r' Hxy _ IH]; [constructor|].
+  inversion HP; subst. constructor; [apply Himp; assumption|apply IH; assumption].
+Qed.
+
+Lemma Forall2_imp {A B} (R S : A -> B -> Prop) l l' :
+  (forall x y, R x y -> S x y) -> Forall2 R l l' -> Forall2 S l l'.
+Proof. intros H. induction 1; constructor; auto. Qed.
+
+Lemma forallb_rel {A B} (f : A -> bool) (g : B -> bool) l l' :
+  Forall2 (fun x y => f x = g y) l l' -> forallb f l = forallb g l'.
+Proof. induction 1 as [|x y r r' Hxy _ IH]; [reflexivity|]. cbn [forallb]. rewrite Hxy, IH. reflexivity. Qed.
+
+Lemma Forall2_fst_map {A B C} (R : B -> C -> Prop) (l : list (A * B)) (l' : list (A * C)) :
+  Forall2 (fun a c => fst a = fst c /\ R (snd a) (snd c)) l l' -> map fst l = map fst l'.
+Proof. induction 1 as [|x y r r' [Hxy _] _ IH]; [reflexivity|]. cbn [map]. rewrite Hxy, IH. reflexivity. Qed.
+
+Lemma attr_val_perm tbl dk ms ms' k :
+  Permutation ms ms' -> NoDup (map fst ms) -> attr_val tbl dk ms k = attr_val tbl dk ms' k.
+Proof. intros Hp Hnd. unfold attr_val. rewrite (jlookup_perm k ms ms' Hp Hnd). reflexivity. Qed.
+
+Lemma all_dec_obj_pointwise ms ms1 :
+  Forall2 (fun a c => fst a = fst c /\ all_dec (snd a) = all_dec (snd c)) ms ms1 ->
+  all_dec (JObj ms) = all_dec (JObj ms1).
+Proof.
+  intros F2. pose proof (Forall2_fst_map (fun x y => all_dec x = all_dec y) _ _ F2) as Hk.
+  assert (Hobj : dec_object unmarshal ms = dec_object unmarshal ms1).
+  { unfold dec_object. rewrite Hk. destruct (nodupb (map fst ms1)); [|reflexivity].
+    rewrite (dec_struct_rel obj_attr (dk_obj unmarshal) (dk_obj unmarshal) ms ms1); [reflexivity|].
+    eapply Forall2_imp; [|exact F2]. intros a c [H1 H2]. split; [exact H1|].
+    split; [apply all_dec_dk_obj; exact H2|apply all_dec_nodup; exact H2]. }
+  assert (Hfld : dec_field unmarshal (JObj ms) = dec_field unmarshal (JObj ms1)).
+  { cbn [dec_field]. rewrite Hk. destruct (nodupb (map fst ms1)); [|reflexivity].
+    rewrite (dec_struct_rel field_attr (dk_field unmarshal) (dk_field unmarshal) ms ms1); [reflexivity|].
+    eapply Forall2_imp; [|exact F2]. intros a c [H1 H2]. split; [exact H1|].
+    split; [apply all_dec_dk_field; exact H2|apply all_dec_nodup; exact H2]. }
+  assert (Hnd : json_nodup (JObj ms) = json_nodup (JObj ms1)).
+  { rewrite !json_nodup_obj, Hk. f_equal. apply forallb_rel.
+    eapply Forall2_imp; [|exact F2]. intros a c [_ H2]. apply all_dec_nodup. exact H2. }
+  unfold all_dec. rewrite !unmarshal_obj, Hobj, Hfld, Hnd. reflexivity.
+Qed.
+
+Lemma all_dec_obj_perm ms ms' : Permutation ms ms' -> all_dec (JObj ms) = all_dec (JObj ms').
+Proof.
+  intros Hp.
+  pose proof (nodupb_perm _ _ (Permutation_map fst Hp)) as Hk.
+  assert (Hobj : dec_object unmarshal ms = dec_object unmarshal ms').
+  { rewrite !dec_object_view, <- Hk, <- (forallb_perm _ _ _ Hp).
+    destruct (nodupb (map fst ms)) eqn:N; [|reflexivity]. cbn [andb].
+    destruct (forallb _ ms); [|reflexivity]. f_equal. apply build_obj_ext. intros k.
+    apply attr_val_perm; [exact Hp|apply nodupb_NoDup; exact N]. }
+  assert (Hfld : dec_field unmarshal (JObj ms) = dec_field unmarshal (JObj ms')).
+  { rewrite !dec_field_view, <- Hk, <- (forallb_perm _ _ _ Hp).
+    destruct (nodupb (map fst ms)) eqn:N; [|reflexivity]. cbn [andb].
+    destruct (forallb _ ms); [|reflexivity].
+    unfold gstr, gsch. rewrite !(attr_val_perm _ _ ms ms' _ Hp (proj1 (nodupb_NoDup _) N)). reflexivity. }
+  assert (Hnd : json_nodup (JObj ms) = json_nodup (JObj ms')).
+  { rewrite !json_nodup_obj, Hk, (forallb_perm _ _ _ Hp). reflexivity. }
+  unfold all_dec. rewrite !unmarshal_obj, Hobj, Hfld, Hnd. reflexivity.
+Qed.
+
+Lemma json_perm_all_dec j : forall j', json_perm j j' -> all_dec j = all_dec j'.
+Proof.
+  induction j as [| v | t i | s | l IH | ms IH] using json_ind'; intros j' Hp; inversion Hp; subst; try reflexivity.
+  - (* arrays *)
+    match goal with H : Forall2 json_perm l _ |- _ => rename H into F2 end.
+    assert (F : Forall2 (fun x y => all_dec x = all_dec y) l l').
+    { eapply Forall_Forall2_combine; [exact IH|exact F2|]. intros x y HP HR. apply HP. exact HR. }
+    unfold all_dec. rewrite !unmarshal_arr, !json_nodup_arr. cbn [dec_field dec_string dec_int dec_slice].
+    rewrite (dec_list_rel unmarshal unmarshal l l'), (forallb_rel json_nodup json_nodup l l'),
+            (dec_list_rel (dec_field unmarshal) (dec_field unmarshal) l l'),
+            (dec_list_rel dec_string dec_string l l'); [reflexivity| | | |];
+      (eapply Forall2_imp; [|exact F]); unfold all_dec; intros x y H; inversion H; reflexivity.
+  - (* objects: values first, then the order *)
+    match goal with H : Forall2 _ ms ?m1, H' : Permutation ?m1 _ |- _ => rename H into F2; rename H' into Hperm end.
+    etransitivity; [|apply all_dec_obj_perm; exact Hperm].
+    apply all_dec_obj_pointwise.
+    eapply Forall_Forall2_combine; [exact IH|exact F2|].
+    intros a c HP [H1 H2]. split; [exact H1|apply HP; exact H2].
+Qed.
+
+Theorem unmarshal_key_order j j' : json_perm j j' -> unmarshal j = unmarshal j'.
+Proof. intros H. apply json_perm_all_dec in H. unfold all_dec in H. inversion H. reflexivity. Qed.
+
+(* ---- (3) unknown members are ignored ------------------------------------------------------ *)
+
+Definition known (tbl : bytes -> option kind) (k : bytes) : bool :=
+  match tbl k with Some _ => true | None => false end.
+
+Lemma strip_members_keys tbl sv ms :
+  map fst (strip_members tbl sv ms) = filter (known tbl) (map fst ms).
+Proof.
+  induction ms as [|[k v] r IH]; [reflexivity|]. cbn [strip_members map fst filter]. unfold known at 1.
+  fold (strip_members tbl sv r). destruct (tbl k); cbn [map fst]; rewrite IH; reflexivity.
+Qed.
+
+Lemma nodupb_filter f l : nodupb l = true -> nodupb (filter f l) = true.
+Proof. intros H. apply nodupb_NoDup. apply NoDup_filter. apply nodupb_NoDup. exact H. Qed.
+
+Lemma dec_struct_strip tbl dk sv ms :
+  Forall (fun kv => match tbl (fst kv) with
+                    | None => json_nodup (snd kv) = true
+                    | Some kd => dk kd (sv kd (snd kv)) = dk kd (snd kv)
+                    end) ms ->
+  dec_struct tbl dk (strip_members tbl sv ms) = dec_struct tbl dk ms.
+Proof.
+  induction 1 as [|[k v] r Hkv _ IH]; [reflexivity|]. cbn [fst snd] in Hkv.
+  rewrite dec_struct_cons. cbn [strip_members]. fold (strip_members tbl sv r).
+  destruct (tbl k) as [kd|] eqn:T.
+  - rewrite dec_struct_cons, T, Hkv, IH. reflexivity.
+  - rewrite Hkv, IH. reflexivity.
+Qed.
+
+Lemma dec_list_map_in {A} (f : json -> option A) (g : json -> json) l :
+  dec_list f (map g l) = dec_list (fun x => f (g x)) l.
+Proof.
+  induction l as [|x r IH]; [reflexivity|]. cbn [map dec_list].
+  fold (dec_list f (map g r)) (dec_list (fun x => f (g x)) r). rewrite IH. reflexivity.
+Qed.
+
+Definition strip_ok (j : json) : Prop :=
+  json_nodup j = true ->
+  unmarshal (strip j) = unmarshal j /\
+  dec_field unmarshal (strip_field strip j) = dec_field unmarshal j /\
+  forall kd, dk_obj unmarshal kd (strip_val strip kd j) = dk_obj unmarshal kd j.
+
+Lemma strip_ok_all j : strip_ok j.
+Proof.
+  induction j as [| v | t i | s | l IH | ms IH] using json_ind'; unfold strip_ok; intros Hnd;
+    try (split; [reflexivity|split; [reflexivity|intros kd; destruct kd; reflexivity]]).
+  - (* arrays *)
+    rewrite json_nodup_arr in Hnd. rewrite forallb_forall in Hnd.
+    assert (Hs : Forall (fun x => unmarshal (strip x) = unmarshal x) l).
+    { apply Forall_forall. intros x Hx. rewrite Forall_forall in IH. apply (IH x Hx). apply Hnd. exact Hx. }
+    assert (Hf : Forall (fun x => dec_field unmarshal (strip_field strip x) = dec_field unmarshal x) l).
+    { apply Forall_forall. intros x Hx. rewrite Forall_forall in IH. apply (IH x Hx). apply Hnd. exact Hx. }
+    assert (H1 : unmarshal (strip (JArr l)) = unmarshal (JArr l)).
+    { change (strip (JArr l)) with (JArr (map strip l)). rewrite !unmarshal_arr, dec_list_map_in.
+      rewrite (dec_list_ext _ unmarshal l Hs). reflexivity. }
+    split; [exact H1|]. split; [reflexivity|]. intros kd. destruct kd; try reflexivity.
+    + cbn [strip_val dk_obj]. rewrite H1. reflexivity.
+    + cbn [strip_val dk_obj dec_slice]. rewrite dec_list_map_in.
+      rewrite (dec_list_ext _ (dec_field unmarshal) l Hf). reflexivity.
+  - (* objects *)
+    rewrite json_nodup_obj in Hnd. apply andb_true_iff in Hnd. destruct Hnd as [Hk Hv].
+    rewrite forallb_forall in Hv. rewrite Forall_forall in IH.
+    assert (H1 : unmarshal (strip (JObj ms)) = unmarshal (JObj ms)).
+    { change (strip (JObj ms)) with (JObj (strip_members obj_attr (strip_val strip) ms)).
+      rewrite !unmarshal_obj. unfold dec_object.
+      rewrite strip_members_keys, (nodupb_filter _ _ Hk), Hk, dec_struct_strip; [reflexivity|].
+      apply Forall_forall. intros [k v] Hin. cbn [fst snd].
+      destruct (obj_attr k) as [kd|]; [|apply (Hv _ Hin)].
+      apply (IH _ Hin). apply (Hv _ Hin). }
+    split; [exact H1|]. split.
+    + cbn [strip_field dec_field].
+      rewrite strip_members_keys, (nodupb_filter _ _ Hk), Hk, dec_struct_strip; [reflexivity|].
+      apply Forall_forall. intros [k v] Hin. cbn [fst snd].
+      destruct (field_attr k) as [kd|]; [|apply (Hv _ Hin)].
+      destruct kd; try reflexivity.
+      pose proof (proj1 (IH _ Hin (Hv _ Hin))) as E. cbn [snd] in E.
+      cbn [dk_field]. cbv beta iota. rewrite E. reflexivity.
+    + intros kd. destruct kd; try reflexivity. cbn [strip_val dk_obj]. rewrite H1. reflexivity.
+Qed.
+
+Theorem unmarshal_strip j : json_nodup j = true -> unmarshal (strip j) = unmarshal j.
+Proof. intros H. apply (strip_ok_all j H). Qed.
+
+(* a single insertion, at the top of a schema object or of a record field *)
+Lemma strip_members_insert tbl sv ms1 k v ms2 :
+  tbl k = None -> strip_members tbl sv (ms1 ++ (k, v) :: ms2) = strip_members tbl sv (ms1 ++ ms2).
+Proof.
+  intros T. induction ms1 as [|[k1 v1] r IH]; cbn [app strip_members].
+  - rewrite T. reflexivity.
+  - fold (strip_members tbl sv (r ++ (k, v) :: ms2)) (strip_members tbl sv (r ++ ms2)). rewrite IH. reflexivity.
+Qed.
+
+Theorem unmarshal_insert_unknown ms1 k v ms2 :
+  obj_attr k = None -> json_nodup (JObj (ms1 ++ (k, v) :: ms2)) = true ->
+  unmarshal (JObj (ms1 ++ (k, v) :: ms2)) = unmarshal (JObj (ms1 ++ ms2)).
+Proof.
+  intros T Hnd.
+  assert (Hnd' : json_nodup (JObj (ms1 ++ ms2)) = true).
+  { rewrite json_nodup_obj in *. apply andb_true_iff in Hnd. destruct Hnd as [Hk Hv].
+    apply andb_true_iff. split.
+    - apply nodupb_NoDup. apply nodupb_NoDup in Hk. rewrite map_app in *. cbn [map fst] in Hk.
+      eapply NoDup_remove_1. exact Hk.
+    - rewrite forallb_app in *. cbn [forallb] in Hv. apply andb_true_iff in Hv. destruct Hv as [Ha Hb].
+      apply andb_true_iff in Hb. destruct Hb as [_ Hb]. rewrite Ha, Hb. reflexivity. }
+  rewrite <- (unmarshal_strip _ Hnd), <- (unmarshal_strip _ Hnd').
+  change (strip (JObj (ms1 ++ (k, v) :: ms2))) with (JObj (strip_members obj_attr (strip_val strip) (ms1 ++ (k, v) :: ms2))).
+  rewrite strip_members_insert by exact T. reflexivity.
+Qed.
+
+(* ---- (1) parse (print s) ---------------------------------------------------------------------- *)
+
+Fixpoint olookup (k : bytes) (kvs : list (bytes * option json)) {struct kvs} : option json :=
+  match kvs with
+  | [] => None
+  | (k', ov) :: r => if bytes_eqb k k' then ov else olookup k r
+  end.
+
+Lemma present_keys_sub kvs k : In k (map fst (present kvs)) -> In k (map fst kvs).
+Proof.
+  induction kvs as [|[k' [v|]] r IH]; cbn [present map fst]; intros H; [contradiction| |].
+  - destruct H as [H|H]; [left; exact H|right; apply IH; exact H].
+  - right. apply IH. exact H.
+Qed.
+
+Lemma present_nodup kvs : NoDup (map fst kvs) -> NoDup (map fst (present kvs)).
+Proof.
+  induction kvs as [|[k' [v|]] r IH]; cbn [present map fst]; intros H; [constructor| |];
+    inversion H as [|? ? Hn Hr]; subst.
+  - constructor; [|apply IH; exact Hr]. intros Hin. apply Hn. apply present_keys_sub. exact Hin.
+  - apply IH. exact Hr.
+Qed.
+
+Lemma jlookup_present kvs k : NoDup (map fst kvs) -> jlookup k (present kvs) = olookup k kvs.
+Proof.
+  induction kvs as [|[k' [v|]] r IH]; cbn [present map fst olookup jlookup]; intros H; [reflexivity| |];
+    inversion H as [|? ? Hn Hr]; subst.
+  - destruct (bytes_eqb k k'); [reflexivity|apply IH; exact Hr].
+  - destruct (bytes_eqb k k') eqn:E; [|apply IH; exact Hr].
+    apply bytes_eqb_eq in E. subst. apply jlookup_notin. intros Hin. apply Hn. apply present_keys_sub. exact Hin.
+Qed.
+
+Lemma forallb_present (f : bytes * json -> bool) kvs :
+  forallb f (present kvs) =
+  forallb (fun kv => match snd kv with Some v => f (fst kv, v) | None => true end) kvs.
+Proof.
+  induction kvs as [|[k' [v|]] r IH]; cbn [present forallb fst snd]; [reflexivity| |]; rewrite IH; reflexivity.
+Qed.
+
+Lemma olookup9 x1 x2 x3 x4 x5 x6 x7 x8 x9 :
+  let l := [ (b "type", x1); (b "logicalType", x2); (b "name", x3); (b "namespace", x4); (b "fields", x5);
+             (b "symbols", x6); (b "items", x7); (b "values", x8); (b "size", x9) ] in
+  olookup (b "type") l = x1 /\ olookup (b "logicalType") l = x2 /\ olookup (b "name") l = x3 /\
+  olookup (b "namespace") l = x4 /\ olookup (b "fields") l = x5 /\ olookup (b "symbols") l = x6 /\
+  olookup (b "items") l = x7 /\ olookup (b "values") l = x8 /\ olookup (b "size") l = x9.
+Proof. repeat split; reflexivity. Qed.
+
+Lemma nine_keys_nodup ty o : NoDup (map fst (marshal_obj ty o)).
+Proof.
+  destruct o. rewrite marshal_obj_eq. cbn [map fst]. apply nodupb_NoDup. vm_compute. reflexivity.
+Qed.
+
+Lemma obj_attr_names :
+  obj_attr (b "type") = Some KStr /\ obj_attr (b "logicalType") = Some KStr /\ obj_attr (b "name") = Some KStr /\
+  obj_attr (b "namespace") = Some KStr /\ obj_attr (b "fields") = Some KFields /\ obj_attr (b "symbols") = Some KSyms /\
+  obj_attr (b "items") = Some KSch /\ obj_attr (b "values") = Some KSch /\ obj_attr (b "size") = Some KInt.
+Proof. repeat split; reflexivity. Qed.
+
+Lemma field_attr_names : field_attr (b "name") = Some KStr /\ field_attr (b "type") = Some KSch.
+Proof. split; reflexivity. Qed.
+
+Lemma json_empty_marshal t : json_empty (marshal t) = true -> t = GS [] None [].
+Proof.
+  destruct t as [ty [o|] un].
+  - destruct o. cbn [marshal]. rewrite marshal_obj_eq. cbn [present json_empty]. discriminate.
+  - rewrite marshal_union. destruct un as [|u us]; cbn [json_empty map].
+    + destruct ty; [reflexivity|discriminate].
+    + discriminate.
+Qed.
+
+Lemma dec_string_ostr s :
+  match ostr s with Some v => dec_string v | None => Some [] end = Some s.
+Proof. destruct s; reflexivity. Qed.
+
+Lemma dec_field_marshal n t :
+  unmarshal (marshal t) = Some (gs_meaning t) ->
+  dec_field unmarshal (marshal_field n (marshal t)) = Some (n, gs_meaning t).
+Proof.
+  intros H. unfold marshal_field. rewrite dec_field_view.
+  set (kvs := [(b "name", ostr n); (b "type", if json_empty (marshal t) then None else Some (marshal t))]).
+  assert (Hnd : NoDup (map fst kvs)) by (apply nodupb_NoDup; vm_compute; reflexivity).
+  rewrite (proj2 (nodupb_NoDup _) (present_nodup _ Hnd)). cbn [andb].
+  destruct field_attr_names as [An At].
+  assert (Hok : forallb (member_ok field_attr (dk_field unmarshal)) (present kvs) = true).
+  { rewrite forallb_present. subst kvs. cbn [forallb fst snd]. rewrite !andb_true_iff. repeat split.
+    - destruct n; [reflexivity|]. cbn [ostr]. unfold member_ok. cbn [fst snd]. rewrite An. reflexivity.
+    - destruct (json_empty (marshal t)); [reflexivity|]. unfold member_ok. cbn [fst snd]. rewrite At.
+      cbn [dk_field]. rewrite H. reflexivity. }
+  rewrite Hok. f_equal. unfold gstr, gsch, attr_val. rewrite An, At, !(jlookup_present _ _ Hnd).
+  subst kvs.
+  change (olookup (b "name") [(b "name", ostr n); (b "type", if json_empty (marshal t) then None else Some (marshal t))])
+    with (ostr n).
+  change (olookup (b "type") [(b "name", ostr n); (b "type", if json_empty (marshal t) then None else Some (marshal t))])
+    with (if json_empty (marshal t) then None else Some (marshal t)).
+  f_equal.
+  - destruct n; reflexivity.
+  - destruct (json_empty (marshal t)) eqn:E.
+    + apply json_empty_marshal in E. subst t. reflexivity.
+    + cbn [dk_field]. rewrite H. reflexivity.
+Qed.
+
+Definition rt_ok (s : gschema) : Prop := gs_wf s = true -> unmarshal (marshal s) = Some (gs_meaning s).
+Definition rt_obj_ok (o : gobject) : Prop :=
+  forall ty, go_wf ty o = true ->
+  dec_object unmarshal (present (marshal_obj ty o)) = Some (GS ty (Some (go_meaning ty o)) []).
+
+Lemma rt_fields fields :
+  Forall (fun p => rt_ok (snd p)) fields -> forallb (fun p => gs_wf (snd p)) fields = true ->
+  dec_list (dec_field unmarshal) (marshal_fields fields) = Some (meaning_fields fields).
+Proof.
+  intros IH Hwf. unfold marshal_fields, meaning_fields. apply dec_list_map.
+  rewrite forallb_forall in Hwf. rewrite Forall_forall in *. intros [n t] Hin. cbn [fst snd].
+  apply dec_field_marshal. apply (IH _ Hin). apply (Hwf _ Hin).
+Qed.
+
+Lemma rt_syms syms : dec_list dec_string (map JStr syms) = Some syms.
+Proof.
+  rewrite <- (map_id syms) at 2. apply dec_list_map. apply Forall_forall. intros x _. reflexivity.
+Qed.
+
+Lemma rt_object lt name ns fields items values size syms :
+  Forall (fun p => rt_ok (snd p)) fields -> rt_ok items -> rt_ok values ->
+  rt_obj_ok (GO lt name ns fields items values size syms).
+Proof.
+  intros IHf IHi IHv ty Hwf. rewrite go_wf_eq in Hwf.
+  apply andb_true_iff in Hwf. destruct Hwf as [Hwf Hsize].
+  apply andb_true_iff in Hwf. destruct Hwf as [Hwf Hvals].
+  apply andb_true_iff in Hwf. destruct Hwf as [Hflds Hitems].
+  rewrite dec_object_view.
+  pose proof (nine_keys_nodup ty (GO lt name ns fields items values size syms)) as Hnd.
+  rewrite (proj2 (nodupb_NoDup _) (present_nodup _ Hnd)). cbn [andb].
+  destruct obj_attr_names as [A1 [A2 [A3 [A4 [A5 [A6 [A7 [A8 A9]]]]]]]].
+  (* the decoded value of each of the five type-specific members *)
+  assert (Dflds : is ty "record" = true ->
+            dec_list (dec_field unmarshal) (marshal_fields fields) = Some (meaning_fields fields)).
+  { intros E. rewrite E in Hflds. apply rt_fields; assumption. }
+  assert (Ditems : is ty "array" = true -> unmarshal (marshal items) = Some (gs_meaning items)).
+  { intros E. rewrite E in Hitems. apply IHi. exact Hitems. }
+  assert (Dvals : is ty "map" = true -> unmarshal (marshal values) = Some (gs_meaning values)).
+  { intros E. rewrite E in Hvals. apply IHv. exact Hvals. }
+  assert (Dsize : is ty "fixed" = true -> int_ok size = true).
+  { intros E. rewrite E in Hsize. exact Hsize. }
+  assert (Hok : forallb (member_ok obj_attr (dk_obj unmarshal))
+                  (present (marshal_obj ty (GO lt name ns fields items values size syms))) = true).
+  { rewrite forallb_present, marshal_obj_eq. cbn [forallb fst snd]. rewrite !andb_true_iff.
+    repeat split. (* the member "type" is closed by conversion *)
+    - destruct lt; [reflexivity|]. cbn [ostr]. unfold member_ok. cbn [fst snd]. rewrite A2. reflexivity.
+    - destruct name; [reflexivity|]. cbn [ostr]. unfold member_ok. cbn [fst snd]. rewrite A3. reflexivity.
+    - destruct ns; [reflexivity|]. cbn [ostr]. unfold member_ok. cbn [fst snd]. rewrite A4. reflexivity.
+    - destruct (is ty "record"); [|reflexivity]. unfold member_ok. cbn [fst snd]. rewrite A5.
+      cbn [dk_obj dec_slice]. rewrite (Dflds eq_refl). reflexivity.
+    - destruct (is ty "enum"); [|reflexivity]. unfold member_ok. cbn [fst snd]. rewrite A6.
+      cbn [dk_obj dec_slice]. rewrite rt_syms. reflexivity.
+    - destruct (is ty "array"); [|reflexivity]. unfold member_ok. cbn [fst snd]. rewrite A7.
+      cbn [dk_obj]. rewrite (Ditems eq_refl). reflexivity.
+    - destruct (is ty "map"); [|reflexivity]. unfold member_ok. cbn [fst snd]. rewrite A8.
+      cbn [dk_obj]. rewrite (Dvals eq_refl). reflexivity.
+    - destruct (is ty "fixed"); [|reflexivity]. unfold member_ok. cbn [fst snd]. rewrite A9.
+      cbn [dk_obj dec_int]. rewrite (Dsize eq_refl). reflexivity. }
+  rewrite Hok. f_equal. rewrite go_meaning_eq.
+  unfold build_obj, gstr, gsch, gfields, gint, gsyms, attr_val.
+  rewrite A1, A2, A3, A4, A5, A6, A7, A8, A9, !(jlookup_present _ _ Hnd), marshal_obj_eq.
+  match goal with |- context [olookup _ ?l] =>
+    match l with
+    | [ (_, ?x1); (_, ?x2); (_, ?x3); (_, ?x4); (_, ?x5); (_, ?x6); (_, ?x7); (_, ?x8); (_, ?x9) ] =>
+      destruct (olookup9 x1 x2 x3 x4 x5 x6 x7 x8 x9) as [O1 [O2 [O3 [O4 [O5 [O6 [O7 [O8 O9]]]]]]]]
+    end
+  end.
+  cbv zeta in O1, O2, O3, O4, O5, O6, O7, O8, O9.
+  rewrite O1, O2, O3, O4, O5, O6, O7, O8, O9.
+  f_equal. f_equal. f_equal.
+  - destruct lt; reflexivity.
+  - destruct name; reflexivity.
+  - destruct ns; reflexivity.
+  - destruct (is ty "record") eqn:E; [|reflexivity]. cbn [dk_obj dec_slice]. rewrite (Dflds eq_refl). reflexivity.
+  - destruct (is ty "array") eqn:E; [|reflexivity]. cbn [dk_obj]. rewrite (Ditems eq_refl). reflexivity.
+  - destruct (is ty "map") eqn:E; [|reflexivity]. cbn [dk_obj]. rewrite (Dvals eq_refl). reflexivity.
+  - destruct (is ty "fixed") eqn:E; [|reflexivity]. cbn [dk_obj dec_int]. rewrite (Dsize eq_refl). reflexivity.
+  - destruct (is ty "enum") eqn:E; [|reflexivity]. cbn [dk_obj dec_slice]. rewrite rt_syms. reflexivity.
+Qed.
+
+Theorem unmarshal_marshal s : gs_wf s = true -> unmarshal (marshal s) = Some (gs_meaning s).
+Proof.
+  change (rt_ok s). apply (gs_ind' rt_ok rt_obj_ok).
+  - (* Object == nil *)
+    intros ty un IH Hwf. rewrite gs_wf_union in Hwf. rewrite marshal_union, gs_meaning_union.
+    destruct un as [|u us]; [reflexivity|].
+    apply andb_true_iff in Hwf. destruct Hwf as [Hty Hwf]. apply bytes_eqb_eq in Hty. subst ty.
+    rewrite unmarshal_arr.
+    rewrite (dec_list_map unmarshal marshal gs_meaning (u :: us)); [reflexivity|].
+    rewrite forallb_forall in Hwf. rewrite Forall_forall in *. intros x Hx. apply (IH x Hx). apply Hwf. exact Hx.
+  - (* Object != nil *)
+    intros ty o un IHo _ Hwf. cbn [gs_wf] in Hwf. apply andb_true_iff in Hwf. destruct Hwf as [Hun Hwf].
+    destruct un; [|discriminate]. cbn [marshal]. rewrite unmarshal_obj. rewrite (IHo ty Hwf). reflexivity.
+  - exact rt_object.
+Qed.
+
+(* ---- well formed, meaning, normal --------------------------------------------------------------- *)
+
+Lemma map_fix_id {A} (f : A -> A) l : Forall (fun x => f x = x) l -> map f l = l.
+Proof. induction 1 as [|x r Hx _ IH]; [reflexivity|]. cbn [map]. rewrite Hx, IH. reflexivity. Qed.
+
+Lemma forallb_map {A B} (f : B -> bool) (g : A -> B) l : forallb f (map g l) = forallb (fun x => f (g x)) l.
+Proof. induction l as [|x r IH]; [reflexivity|]. cbn [map forallb]. rewrite IH. reflexivity. Qed.
+
+Lemma forallb_imp {A} (f g : A -> bool) l :
+  Forall (fun x => f x = true -> g x = true) l -> forallb f l = true -> forallb g l = true.
+Proof.
+  induction 1 as [|x r Hx _ IH]; [reflexivity|]. cbn [forallb]. rewrite !andb_true_iff.
+  intros [H1 H2]. split; [apply Hx; exact H1|apply IH; exact H2].
+Qed.
+
+Lemma gs_is_zero_eq s : gs_is_zero s = true -> s = gs_zero.
+Proof. destruct s as [[|c ty] [o|] [|u us]]; cbn [gs_is_zero]; try discriminate. reflexivity. Qed.
+
+Lemma is_nil_eq {A} (l : list A) : is_nil l = true -> l = [].
+Proof. destruct l; [reflexivity|discriminate]. Qed.
+
+Lemma gs_normal_wf_fix s : gs_normal s = true -> gs_wf s = true /\ gs_meaning s = s.
+Proof.
+  apply (gs_ind' (fun s => gs_normal s = true -> gs_wf s = true /\ gs_meaning s = s)
+                 (fun o => forall ty, go_normal ty o = true -> go_wf ty o = true /\ go_meaning ty o = o)).
+  - intros ty un IH H. rewrite gs_normal_union in H. rewrite gs_wf_union, gs_meaning_union.
+    destruct un as [|u us]; [split; reflexivity|].
+    apply andb_true_iff in H. destruct H as [Hty Hn]. rewrite Hty. cbn [andb].
+    rewrite forallb_forall in Hn. rewrite Forall_forall in IH. split.
+    + apply forallb_forall. intros x Hx. apply (IH x Hx). apply Hn. exact Hx.
+    + f_equal. apply map_fix_id. apply Forall_forall. intros x Hx. apply (IH x Hx). apply Hn. exact Hx.
+  - intros ty o un IHo _ H. cbn [gs_normal] in H. apply andb_true_iff in H. destruct H as [Hun Hn].
+    apply is_nil_eq in Hun. subst un. destruct (IHo ty Hn) as [H1 H2]. cbn [gs_wf gs_meaning is_nil andb].
+    rewrite H1, H2. split; reflexivity.
+  - intros lt name ns fields items values size syms IHf IHi IHv ty H.
+    rewrite go_normal_eq in H. rewrite go_wf_eq, go_meaning_eq.
+    apply andb_true_iff in H. destruct H as [H Hsy].
+    apply andb_true_iff in H. destruct H as [H Hsz].
+    apply andb_true_iff in H. destruct H as [H Hv].
+    apply andb_true_iff in H. destruct H as [Hf Hi].
+    rewrite Forall_forall in IHf.
+    assert (Ef : (if is ty "record" then meaning_fields fields else []) = fields /\
+                 (if is ty "record" then forallb (fun p => gs_wf (snd p)) fields else true) = true).
+    { destruct (is ty "record").
+      - rewrite forallb_forall in Hf. split.
+        + unfold meaning_fields. apply map_fix_id. apply Forall_forall. intros [n t] Hin.
+          pose proof (proj2 (IHf _ Hin (Hf _ Hin))) as E. cbn [fst snd] in *. rewrite E. reflexivity.
+        + apply forallb_forall. intros p Hin. apply (IHf _ Hin (Hf _ Hin)).
+      - apply is_nil_eq in Hf. subst. split; reflexivity. }
+    assert (Ei : (if is ty "array" then gs_meaning items else gs_zero) = items /\
+                 (if is ty "array" then gs_wf items else true) = true).
+    { destruct (is ty "array"); [destruct (IHi Hi); split; assumption|].
+      apply gs_is_zero_eq in Hi. subst. split; reflexivity. }
+    assert (Ev : (if is ty "map" then gs_meaning values else gs_zero) = values /\
+                 (if is ty "map" then gs_wf values else true) = true).
+    { destruct (is ty "map"); [destruct (IHv Hv); split; assumption|].
+      apply gs_is_zero_eq in Hv. subst. split; reflexivity. }
+    assert (Es : (if is ty "fixed" then size else 0) = size /\ (if is ty "fixed" then int_ok size else true) = true).
+    { destruct (is ty "fixed"); [split; [reflexivity|exact Hsz]|]. apply Z.eqb_eq in Hsz. subst. split; reflexivity. }
+    assert (Ey : (if is ty "enum" then syms else []) = syms).
+    { destruct (is ty "enum"); [reflexivity|]. apply is_nil_eq in Hsy. subst. reflexivity. }
+    destruct Ef as [Ef1 Ef2], Ei as [Ei1 Ei2], Ev as [Ev1 Ev2], Es as [Es1 Es2].
+    rewrite Ef1, Ef2, Ei1, Ei2, Ev1, Ev2, Es1, Es2, Ey. split; reflexivity.
+Qed.
+
+Lemma gs_wf_meaning_normal s : gs_wf s = true -> gs_normal (gs_meaning s) = true.
+Proof.
+  apply (gs_ind' (fun s => gs_wf s = true -> gs_normal (gs_meaning s) = true)
+                 (fun o => forall ty, go_wf ty o = true -> go_normal ty (go_meaning ty o) = true)).
+  - intros ty un IH H. rewrite gs_wf_union in H. rewrite gs_meaning_union, gs_normal_union.
+    destruct un as [|u us]; [reflexivity|]. cbn [map].
+    apply andb_true_iff in H. destruct H as [Hty Hw]. rewrite Hty. cbn [andb].
+    change (gs_meaning u :: map gs_meaning us) with (map gs_meaning (u :: us)). rewrite forallb_map.
+    rewrite forallb_forall in Hw. rewrite Forall_forall in IH.
+    apply forallb_forall. intros x Hx. apply (IH x Hx). apply Hw. exact Hx.
+  - intros ty o un IHo _ H. cbn [gs_wf] in H. apply andb_true_iff in H. destruct H as [Hun Hw].
+    cbn [gs_meaning gs_normal]. rewrite Hun, (IHo ty Hw). reflexivity.
+  - intros lt name ns fields items values size syms IHf IHi IHv ty H.
+    rewrite go_wf_eq in H. rewrite go_meaning_eq, go_normal_eq.
+    apply andb_true_iff in H. destruct H as [H Hsz].
+    apply andb_true_iff in H. destruct H as [H Hv].
+    apply andb_true_iff in H. destruct H as [Hf Hi].
+    rewrite !andb_true_iff. repeat split.
+    + destruct (is ty "record"); [|reflexivity]. unfold meaning_fields. rewrite forallb_map. cbn [snd].
+      rewrite forallb_forall in Hf. rewrite Forall_forall in IHf.
+      apply forallb_forall. intros p Hin. apply (IHf _ Hin (Hf _ Hin)).
+    + destruct (is ty "array"); [apply IHi; exact Hi|reflexivity].
+    + destruct (is ty "map"); [apply IHv; exact Hv|reflexivity].
+    + destruct (is ty "fixed"); [exact Hsz|reflexivity].
+    + destruct (is ty "enum"); reflexivity.
+Qed.
+
+Lemma gs_meaning_idem s : gs_meaning (gs_meaning s) = gs_meaning s.
+Proof.
+  apply (gs_ind' (fun s => gs_meaning (gs_meaning s) = gs_meaning s)
+                 (fun o => forall ty, go_meaning ty (go_meaning ty o) = go_meaning ty o)).
+  - intros ty un IH. rewrite !gs_meaning_union, map_map. f_equal.
+    apply map_ext_in. rewrite Forall_forall in IH. exact IH.
+  - intros ty o un IHo _. cbn [gs_meaning]. rewrite IHo. reflexivity.
+  - intros lt name ns fields items values size syms IHf IHi IHv ty.
+    rewrite !go_meaning_eq. f_equal.
+    + destruct (is ty "record"); [|reflexivity]. unfold meaning_fields. rewrite map_map. cbn [fst snd].
+      apply map_ext_in. rewrite Forall_forall in IHf. intros p Hin. rewrite (IHf _ Hin). reflexivity.
+    + destruct (is ty "array"); [exact IHi|reflexivity].
+    + destruct (is ty "map"); [exact IHv|reflexivity].
+    + destruct (is ty "fixed"); reflexivity.
+    + destruct (is ty "enum"); reflexivity.
+Qed.
+
+(* ---- every parsed value is well formed ------------------------------------------------------- *)
+
+Definition parsed_wf (j : json) : Prop :=
+  (forall s, unmarshal j = Some s -> gs_wf s = true) /\
+  (forall f, dec_field unmarshal j = Some f -> gs_wf (snd f) = true) /\
+  (forall l, dec_slice (dec_field unmarshal) j = Some l -> forallb (fun p => gs_wf (snd p)) l = true).
+
+Lemma dec_list_forallb {A} (f : json -> option A) (g : A -> bool) l out :
+  Forall (fun x => forall a, f x = Some a -> g a = true) l ->
+  dec_list f l = Some out -> forallb g out = true.
+Proof.
+  intros HF H. apply dec_list_Forall2 in H. induction H as [|x a r out' Hxa _ IH]; [reflexivity|].
+  inversion HF; subst. cbn [forallb]. rewrite (H1 a Hxa), IH; [reflexivity|assumption].
+Qed.
+
+Lemma gsch_obj_wf ms k :
+  Forall (fun kv => parsed_wf (snd kv)) ms ->
+  gs_wf (gsch (attr_val obj_attr (dk_obj unmarshal) ms) k) = true.
+Proof.
+  intros IH. unfold gsch, attr_val. destruct (obj_attr (b k)) as [kd|]; [|reflexivity].
+  destruct (jlookup (b k) ms) as [v|] eqn:J; [|reflexivity].
+  apply jlookup_In in J. rewrite Forall_forall in IH. pose proof (IH _ J) as [H1 _]. cbn [snd] in H1.
+  destruct kd; cbn [dk_obj].
+  - destruct (dec_string v); reflexivity.
+  - destruct (unmarshal v) as [s|]; [|reflexivity]. cbn [option_map]. apply H1. reflexivity.
+  - destruct (dec_slice (dec_field unmarshal) v); reflexivity.
+  - destruct (dec_int v); reflexivity.
+  - destruct (dec_slice dec_string v); reflexivity.
+Qed.
+
+Lemma gfields_obj_wf ms k :
+  Forall (fun kv => parsed_wf (snd kv)) ms ->
+  forallb (fun p => gs_wf (snd p)) (gfields (attr_val obj_attr (dk_obj unmarshal) ms) k) = true.
+Proof.
+  intros IH. unfold gfields, attr_val. destruct (obj_attr (b k)) as [kd|]; [|reflexivity].
+  destruct (jlookup (b k) ms) as [v|] eqn:J; [|reflexivity].
+  apply jlookup_In in J. rewrite Forall_forall in IH. pose proof (IH _ J) as [_ [_ H3]]. cbn [snd] in H3.
+  destruct kd; cbn [dk_obj].
+  - destruct (dec_string v); reflexivity.
+  - destruct (unmarshal v); reflexivity.
+  - destruct (dec_slice (dec_field unmarshal) v) as [l|]; [|reflexivity]. cbn [option_map]. apply H3. reflexivity.
+  - destruct (dec_int v); reflexivity.
+  - destruct (dec_slice dec_string v); reflexivity.
+Qed.
+
+Lemma dec_int_ok v z : dec_int v = Some z -> int_ok z = true.
+Proof.
+  destruct v as [| | t [i|] | | |]; cbn [dec_int]; try discriminate.
+  - intros H. inversion H. reflexivity.
+  - destruct (int_ok i) eqn:E; [|discriminate]. intros H. inversion H; subst. exact E.
+Qed.
+
+Lemma gint_obj_ok ms k : int_ok (gint (attr_val obj_attr (dk_obj unmarshal) ms) k) = true.
+Proof.
+  unfold gint, attr_val. destruct (obj_attr (b k)) as [kd|]; [|reflexivity].
+  destruct (jlookup (b k) ms) as [v|]; [|reflexivity].
+  destruct kd; cbn [dk_obj].
+  - destruct (dec_string v); reflexivity.
+  - destruct (unmarshal v); reflexivity.
+  - destruct (dec_slice (dec_field unmarshal) v); reflexivity.
+  - destruct (dec_int v) as [z|] eqn:E; [|reflexivity]. cbn [option_map]. apply (dec_int_ok _ _ E).
+  - destruct (dec_slice dec_string v); reflexivity.
+Qed.
+
+Lemma parsed_wf_all j : parsed_wf j.
+Proof.
+  induction j as [| v | t i | s | l IH | ms IH] using json_ind'; unfold parsed_wf.
+  - repeat split; try discriminate.
+    + intros f H. inversion H. reflexivity.
+    + intros l H. inversion H. reflexivity.
+  - repeat split; discriminate.
+  - repeat split; discriminate.
+  - repeat split; try discriminate. intros s0 H. inversion H. reflexivity.
+  - repeat split; try discriminate.
+    + intros s H. rewrite unmarshal_arr in H. destruct (dec_list unmarshal l) as [us|] eqn:E; [|discriminate].
+      inversion H; subst. rewrite gs_wf_union. destruct us as [|u us]; [reflexivity|].
+      unfold is. rewrite bytes_eqb_refl. cbn [andb].
+      eapply dec_list_forallb; [|exact E]. eapply Forall_impl; [|exact IH]. intros x [H1 _]. exact H1.
+    + intros out H. cbn [dec_slice] in H. eapply dec_list_forallb; [|exact H].
+      eapply Forall_impl; [|exact IH]. intros x [_ [H2 _]]. exact H2.
+  - repeat split; try discriminate.
+    + intros s H. rewrite unmarshal_obj, dec_object_view in H.
+      destruct (nodupb (map fst ms) && forallb (member_ok obj_attr (dk_obj unmarshal)) ms); [|discriminate].
+      inversion H; subst. unfold build_obj. cbn [gs_wf is_nil andb]. rewrite go_wf_eq.
+      rewrite (gfields_obj_wf ms "fields" IH), (gsch_obj_wf ms "items" IH), (gsch_obj_wf ms "values" IH),
+              (gint_obj_ok ms "size").
+      destruct (is _ "record"), (is _ "array"), (is _ "map"), (is _ "fixed"); reflexivity.
+    + intros f H. rewrite dec_field_view in H.
+      destruct (nodupb (map fst ms) && forallb (member_ok field_attr (dk_field unmarshal)) ms); [|discriminate].
+      inversion H; subst. cbn [snd]. unfold gsch, attr_val.
+      destruct (field_attr (b "type")) as [kd|]; [|reflexivity].
+      destruct (jlookup (b "type") ms) as [v|] eqn:J; [|reflexivity].
+      apply jlookup_In in J. rewrite Forall_forall in IH. pose proof (IH _ J) as [H1 _]. cbn [snd] in H1.
+      destruct kd; cbn [dk_field]; try reflexivity.
+      * destruct (dec_string v); reflexivity.
+      * destruct (unmarshal v) as [s|]; [|reflexivity]. cbn [option_map]. apply H1. reflexivity.
+Qed.
+
+Theorem unmarshal_wf j s : unmarshal j = Some s -> gs_wf s = true.
+Proof. apply (parsed_wf_all j). Qed.
+
+(* ---- (5) duplicate member names anywhere are rejected; Marshal never writes one ----------- *)
+
+Definition dup_rejected (j : json) : Prop :=
+  json_nodup j = false ->
+  unmarshal j = None /\ dec_field unmarshal j = None /\ forall kd, dk_obj unmarshal kd j = None.
+
+Lemma forallb_false {A} (f : A -> bool) l : forallb f l = false -> exists x, In x l /\ f x = false.
+Proof.
+  induction l as [|x r IH]; cbn [forallb]; [discriminate|]. intros H.
+  destruct (f x) eqn:E.
+  - destruct (IH H) as [y [Hy Ey]]. exists y. split; [right; exact Hy|exact Ey].
+  - exists x. split; [left; reflexivity|exact E].
+Qed.
+
+Lemma forallb_false_in {A} (f : A -> bool) l x : In x l -> f x = false -> forallb f l = false.
+Proof.
+  intros Hin Hx. destruct (forallb f l) eqn:E; [|reflexivity].
+  rewrite forallb_forall in E. rewrite (E x Hin) in Hx. discriminate.
+Qed.
+
+Lemma option_map_none {A B} (f : A -> B) o : option_map f o = None -> o = None.
+Proof. destruct o; [discriminate|reflexivity]. Qed.
+
+Lemma dup_rejected_all j : dup_rejected j.
+Proof.
+  induction j as [| v | t i | s | l IH | ms IH] using json_ind'; unfold dup_rejected; intros Hnd;
+    try discriminate.
+  - rewrite json_nodup_arr in Hnd. destruct (forallb_false _ _ Hnd) as [x [Hx Ex]].
+    rewrite Forall_forall in IH. destruct (IH x Hx Ex) as [H1 [H2 H3]].
+    assert (U : unmarshal (JArr l) = None).
+    { rewrite unmarshal_arr, (dec_list_none unmarshal l x Hx H1). reflexivity. }
+    split; [exact U|]. split; [reflexivity|]. intros kd. destruct kd; cbn [dk_obj dec_string dec_int dec_slice]; try reflexivity.
+    + rewrite U. reflexivity.
+    + rewrite (dec_list_none (dec_field unmarshal) l x Hx H2). reflexivity.
+    + pose proof (H3 KStr) as Hs. cbn [dk_obj] in Hs. apply option_map_none in Hs.
+      rewrite (dec_list_none dec_string l x Hx Hs). reflexivity.
+  - rewrite json_nodup_obj in Hnd.
+    assert (U : unmarshal (JObj ms) = None /\ dec_field unmarshal (JObj ms) = None).
+    { rewrite unmarshal_obj, dec_object_view, dec_field_view.
+      destruct (nodupb (map fst ms)); [|split; reflexivity]. cbn [andb] in *.
+      destruct (forallb_false _ _ Hnd) as [[k v] [Hin Ex]]. cbn [snd] in Ex.
+      rewrite Forall_forall in IH. destruct (IH _ Hin Ex) as [H1 [H2 H3]]. cbn [snd] in *.
+      rewrite (forallb_false_in (member_ok obj_attr (dk_obj unmarshal)) ms (k, v) Hin),
+              (forallb_false_in (member_ok field_attr (dk_field unmarshal)) ms (k, v) Hin); [split; reflexivity| |].
+      - unfold member_ok. cbn [fst snd]. destruct (field_attr k) as [kd|]; [|exact Ex].
+        destruct kd; cbn [dk_field]; try reflexivity.
+        + pose proof (H3 KStr) as Hs. cbn [dk_obj] in Hs. rewrite Hs. reflexivity.
+        + rewrite H1. reflexivity.
+      - unfold member_ok. cbn [fst snd]. destruct (obj_attr k) as [kd|]; [|exact Ex]. rewrite (H3 kd). reflexivity. }
+    destruct U as [U1 U2]. split; [exact U1|]. split; [exact U2|].
+    intros kd. destruct kd; cbn [dk_obj dec_string dec_int dec_slice]; try reflexivity. rewrite U1. reflexivity.
+Qed.
+
+Theorem unmarshal_rejects_duplicates j : json_nodup j = false -> unmarshal j = None.
+Proof. intros H. apply (dup_rejected_all j H). Qed.
+
+Lemma marshal_nodup s : json_nodup (marshal s) = true.
+Proof.
+  apply (gs_ind' (fun s => json_nodup (marshal s) = true)
+                 (fun o => forall ty, json_nodup (JObj (present (marshal_obj ty o))) = true)).
+  - intros ty un IH. rewrite marshal_union. destruct un as [|u us]; [reflexivity|].
+    rewrite json_nodup_arr, forallb_map. apply forallb_forall. rewrite Forall_forall in IH. exact IH.
+  - intros ty o un IHo _. cbn [marshal]. apply IHo.
+  - intros lt name ns fields items values size syms IHf IHi IHv ty.
+    rewrite json_nodup_obj.
+    rewrite (proj2 (nodupb_NoDup _) (present_nodup _ (nine_keys_nodup ty _))). cbn [andb].
+    rewrite (forallb_present (fun kv => json_nodup (snd kv))), marshal_obj_eq. cbn [forallb fst snd].
+    rewrite !andb_true_iff. repeat split.
+    + destruct lt; reflexivity.
+    + destruct name; reflexivity.
+    + destruct ns; reflexivity.
+    + destruct (is ty "record"); [|reflexivity]. rewrite json_nodup_arr. unfold marshal_fields. rewrite forallb_map.
+      apply forallb_forall. rewrite Forall_forall in IHf. intros [n t] Hin. cbn [fst snd].
+      unfold marshal_field. rewrite json_nodup_obj.
+      assert (Hnd : NoDup (map fst [(b "name", ostr n); (b "type", if json_empty (marshal t) then None else Some (marshal t))]))
+        by (apply nodupb_NoDup; vm_compute; reflexivity).
+      rewrite (proj2 (nodupb_NoDup _) (present_nodup _ Hnd)). cbn [andb].
+      rewrite (forallb_present (fun kv => json_nodup (snd kv))). cbn [forallb fst snd].
+      rewrite !andb_true_iff. repeat split.
+      * destruct n; reflexivity.
+      * destruct (json_empty (marshal t)); [reflexivity|]. apply (IHf _ Hin).
+    + destruct (is ty "enum"); [|reflexivity]. rewrite json_nodup_arr, forallb_map.
+      apply forallb_forall. intros x _. reflexivity.
+    + destruct (is ty "array"); [exact IHi|reflexivity].
+    + destruct (is ty "map"); [exact IHv|reflexivity].
+    + destruct (is ty "fixed"); reflexivity.
+Qed.
+
+(* ---- (4) structure: every attribute of the result is the decoded member of that name ------- *)
+
+Definition field_of (ms : list (bytes * json)) (k : string) {A} (dec : json -> option A) (dflt x : A) : Prop :=
+  match jlookup (b k) ms with Some v => dec v = Some x | None => x = dflt end.
+
+Lemma member_ok_found tbl dk ms k v kd :
+  forallb (member_ok tbl dk) ms = true -> jlookup k ms = Some v -> tbl k = Some kd -> exists a, dk kd v = Some a.
+Proof.
+  intros Hok J T. apply jlookup_In in J. rewrite forallb_forall in Hok. pose proof (Hok _ J) as H.
+  unfold member_ok in H. cbn [fst snd] in H. rewrite T in H. destruct (dk kd v) as [a|]; [exists a; reflexivity|discriminate].
+Qed.
+
+Section ObjStructure.
+  Variable ms : list (bytes * json).
+  Hypothesis Hok : forallb (member_ok obj_attr (dk_obj unmarshal)) ms = true.
+  Let look := attr_val obj_attr (dk_obj unmarshal) ms.
+
+  Lemma attr_str k : obj_attr (b k) = Some KStr -> field_of ms k dec_string [] (gstr look k).
+  Proof.
+    intros T. unfold field_of, gstr, look, attr_val. rewrite T. destruct (jlookup (b k) ms) as [v|] eqn:J; [|reflexivity].
+    destruct (member_ok_found _ _ _ _ _ _ Hok J T) as [a Ha]. cbn [dk_obj] in *.
+    destruct (dec_string v); [reflexivity|discriminate].
+  Qed.
+
+  Lemma attr_sch k : obj_attr (b k) = Some KSch -> field_of ms k unmarshal gs_zero (gsch look k).
+  Proof.
+    intros T. unfold field_of, gsch, look, attr_val. rewrite T. destruct (jlookup (b k) ms) as [v|] eqn:J; [|reflexivity].
+    destruct (member_ok_found _ _ _ _ _ _ Hok J T) as [a Ha]. cbn [dk_obj] in *.
+    destruct (unmarshal v); [reflexivity|discriminate].
+  Qed.
+
+  Lemma attr_fields k : obj_attr (b k) = Some KFields ->
+    field_of ms k (dec_slice (dec_field unmarshal)) [] (gfields look k).
+  Proof.
+    intros T. unfold field_of, gfields, look, attr_val. rewrite T. destruct (jlookup (b k) ms) as [v|] eqn:J; [|reflexivity].
+    destruct (member_ok_found _ _ _ _ _ _ Hok J T) as [a Ha]. cbn [dk_obj] in *.
+    destruct (dec_slice (dec_field unmarshal) v); [reflexivity|discriminate].
+  Qed.
+
+  Lemma attr_int k : obj_attr (b k) = Some KInt -> field_of ms k dec_int 0 (gint look k).
+  Proof.
+    intros T. unfold field_of, gint, look, attr_val. rewrite T. destruct (jlookup (b k) ms) as [v|] eqn:J; [|reflexivity].
+    destruct (member_ok_found _ _ _ _ _ _ Hok J T) as [a Ha]. cbn [dk_obj] in *.
+    destruct (dec_int v); [reflexivity|discriminate].
+  Qed.
+
+  Lemma attr_syms k : obj_attr (b k) = Some KSyms -> field_of ms k (dec_slice dec_string) [] (gsyms look k).
+  Proof.
+    intros T. unfold field_of, gsyms, look, attr_val. rewrite T. destruct (jlookup (b k) ms) as [v|] eqn:J; [|reflexivity].
+    destruct (member_ok_found _ _ _ _ _ _ Hok J T) as [a Ha]. cbn [dk_obj] in *.
+    destruct (dec_slice dec_string v); [reflexivity|discriminate].
+  Qed.
+End ObjStructure.
+
+Theorem unmarshal_object_structure ms s :
+  unmarshal (JObj ms) = Some s ->
+  exists ty lt name ns fields items values size syms,
+    s = GS ty (Some (GO lt name ns fields items values size syms)) [] /\
+    field_of ms "type" dec_string [] ty /\
+    field_of ms "logicalType" dec_string [] lt /\
+    field_of ms "name" dec_string [] name /\
+    field_of ms "namespace" dec_string [] ns /\
+    field_of ms "fields" (dec_slice (dec_field unmarshal)) [] fields /\
+    field_of ms "items" unmarshal gs_zero items /\
+    field_of ms "values" unmarshal gs_zero values /\
+    field_of ms "size" dec_int 0 size /\
+    field_of ms "symbols" (dec_slice dec_string) [] syms.
+Proof.
+  rewrite unmarshal_obj, dec_object_view. intros H.
+  destruct (nodupb (map fst ms)); [|discriminate]. cbn [andb] in H.
+  destruct (forallb (member_ok obj_attr (dk_obj unmarshal)) ms) eqn:Hok; [|discriminate].
+  inversion H; subst. unfold build_obj.
+  destruct obj_attr_names as [A1 [A2 [A3 [A4 [A5 [A6 [A7 [A8 A9]]]]]]]].
+  do 9 eexists. split; [reflexivity|].
+  repeat split.
+  - apply (attr_str ms Hok "type" A1).
+  - apply (attr_str ms Hok "logicalType" A2).
+  - apply (attr_str ms Hok "name" A3).
+  - apply (attr_str ms Hok "namespace" A4).
+  - apply (attr_fields ms Hok "fields" A5).
+  - apply (attr_sch ms Hok "items" A7).
+  - apply (attr_sch ms Hok "values" A8).
+  - apply (attr_int ms Hok "size" A9).
+  - apply (attr_syms ms Hok "symbols" A6).
+Qed.
+
+Theorem dec_field_structure fms n t :
+  dec_field unmarshal (JObj fms) = Some (n, t) ->
+  field_of fms "name" dec_string [] n /\ field_of fms "type" unmarshal gs_zero t.
+Proof.
+  rewrite dec_field_view. intros H.
+  destruct (nodupb (map fst fms)); [|discriminate]. cbn [andb] in H.
+  destruct (forallb (member_ok field_attr (dk_field unmarshal)) fms) eqn:Hok; [|discriminate].
+  inversion H; subst. destruct field_attr_names as [An At]. split.
+  - unfold field_of, gstr, attr_val. rewrite An. destruct (jlookup (b "name") fms) as [v|] eqn:J; [|reflexivity].
+    destruct (member_ok_found _ _ _ _ _ _ Hok J An) as [a Ha]. cbn [dk_field] in *.
+    destruct (dec_string v); [reflexivity|discriminate].
+  - unfold field_of, gsch, attr_val. rewrite At. destruct (jlookup (b "type") fms) as [v|] eqn:J; [|reflexivity].
+    destruct (member_ok_found _ _ _ _ _ _ Hok J At) as [a Ha]. cbn [dk_field] in *.
+    destruct (unmarshal v); [reflexivity|discriminate].
+Qed.
+
+(* a slice attribute keeps length and order *)
+Theorem dec_slice_order {A} (f : json -> option A) l out :
+  dec_slice f (JArr l) = Some out <-> Forall2 (fun x a => f x = Some a) l out.
+Proof. cbn [dec_slice]. apply dec_list_Forall2. Qed.
+
+Theorem unmarshal_union_structure l s :
+  unmarshal (JArr l) = Some s <->
+  exists us, s = GS (b "union") None us /\ Forall2 (fun x u => unmarshal x = Some u) l us.
+Proof.
+  rewrite unmarshal_arr. split.
+  - destruct (dec_list unmarshal l) as [us|] eqn:E; [|discriminate]. intros H. inversion H; subst.
+    exists us. split; [reflexivity|]. apply dec_list_Forall2. exact E.
+  - intros [us [-> H]]. apply dec_list_Forall2 in H. rewrite H. reflexivity.
+Qed.
+
+(* ---- (5) malformed trees ------------------------------------------------------------------------- *)
+
+Theorem unmarshal_member_error ms k v kd :
+  In (k, v) ms -> obj_attr k = Some kd -> dk_obj unmarshal kd v = None -> unmarshal (JObj ms) = None.
+Proof.
+  intros Hin T D. rewrite unmarshal_obj, dec_object_view.
+  rewrite (forallb_false_in (member_ok obj_attr (dk_obj unmarshal)) ms (k, v) Hin).
+  - rewrite andb_false_r. reflexivity.
+  - unfold member_ok. cbn [fst snd]. rewrite T, D. reflexivity.
+Qed.
+
+Theorem dec_field_member_error fms k v kd :
+  In (k, v) fms -> field_attr k = Some kd -> dk_field unmarshal kd v = None -> dec_field unmarshal (JObj fms) = None.
+Proof.
+  intros Hin T D. rewrite dec_field_view.
+  rewrite (forallb_false_in (member_ok field_attr (dk_field unmarshal)) fms (k, v) Hin).
+  - rewrite andb_false_r. reflexivity.
+  - unfold member_ok. cbn [fst snd]. rewrite T, D. reflexivity.
+Qed.
+
+Theorem unmarshal_branch_error l x : In x l -> unmarshal x = None -> unmarshal (JArr l) = None.
+Proof. intros Hin H. rewrite unmarshal_arr, (dec_list_none unmarshal l x Hin H). reflexivity. Qed.
+
+Theorem unmarshal_duplicate_member ms : nodupb (map fst ms) = false -> unmarshal (JObj ms) = None.
+Proof. intros H. rewrite unmarshal_obj. unfold dec_object. rewrite H. reflexivity. Qed.
